@@ -20,6 +20,10 @@ ASSUMPTIONS = ['ICU collation of strings over [a-z0-9] equals code-point order (
 XSL = 'http://www.w3.org/1999/XSL/Transform'
 NUMS = ['1', '2', '3', '10', '2.5', '-1', '0', '-0', '007', ' 4 ', '1e3', 'x', '', 'NaN', 'Infinity', '-Infinity', '135792468', '135792468', '0.1', '100', '3', '3', '2']
 TEXTS = ['a', 'b', 'c', 'ab', 'abc', 'b2', '0', '1', '10', '2', 'z', '', 'a', 'b', 'aa', 'a0', 'zz9']
+# values that differ only in case: judged only when every text key names lang="en" (the ICU collation of 'en': letters compare without case
+# first, digits before letters; strings equal so far are ordered by case, position by position, lower case first unless case-order says
+# upper-first)
+TEXTS_CASE = ['a', 'A', 'b', 'B', 'ab', 'Ab', 'aB', 'AB', 'a1', 'A1', '', 'b2', 'B2', 'aa', 'aA', 'Aa', 'a', 'A']
 KEYS = [('@n', 'number'), ('@n', 'text'), ('@t', 'text'), ('.', 'text'), ('number(@n) mod 3', 'number'), ('string-length(@t)', 'number'),
         ('position()', 'number'), ('@g', 'text'), ('concat(@t, @g)', 'text'), ('-number(@n)', 'number'), ('count(preceding-sibling::i)', 'number'),
         ('substring(@t, 2)', 'text'), ('@missing', 'text'), ('@missing', 'number'), ('last() - position()', 'number')]
@@ -36,10 +40,12 @@ def budget(tier):
 def cases(draw):
     n = draw(st.one_of(st.integers(0, 8), st.integers(0, 30)))
     small = draw(st.booleans())   # small value pools give many ties
+    mixed = draw(st.sampled_from([False, False, True]))   # values that differ in case only, every text key with lang="en" and a drawn case-order
+    texts = TEXTS_CASE if mixed else TEXTS
     items = []
     for i in range(n):
-        items.append({'n': draw(st.sampled_from(NUMS[:6] if small else NUMS)), 't': draw(st.sampled_from(TEXTS[:4] if small else TEXTS)),
-                      'g': draw(st.sampled_from(['0', '1'])), 'x': draw(st.sampled_from(TEXTS))})
+        items.append({'n': draw(st.sampled_from(NUMS[:6] if small else NUMS)), 't': draw(st.sampled_from(texts[:4] if small else texts)),
+                      'g': draw(st.sampled_from(['0', '1'])), 'x': draw(st.sampled_from(texts))})
     keys = []
     for _ in range(draw(st.integers(1, 3))):
         sel, dt = draw(st.sampled_from(KEYS))
@@ -50,6 +56,9 @@ def cases(draw):
     for k in keys:
         if k['data-type'] is None:
             k['dt'] = 'text'
+        if mixed and k['dt'] == 'text':
+            k['lang'] = 'en'
+            k['case-order'] = draw(st.sampled_from([None, None, 'upper-first', 'lower-first']))
     return {'items': items, 'keys': keys, 'select': draw(st.sampled_from(SELECTS)), 'how': draw(st.sampled_from(['for-each', 'apply-templates'])),
             'nested': draw(st.integers(0, 4)) == 0}
 
@@ -71,7 +80,8 @@ def source(case):
 def stylesheet(case):
     sorts = ''.join('<xsl:sort select="%s"%s%s/>' % (k['select'].replace('<', '&lt;'),
                                                    ' data-type="%s"' % k['data-type'] if k['data-type'] else '',
-                                                   (' order="%s"' % k['order'] if k['order'] else '') + (' lang="%s"' % k['lang'] if k.get('lang') else '')) for k in case['keys'])
+                                                   (' order="%s"' % k['order'] if k['order'] else '') + (' lang="%s"' % k['lang'] if k.get('lang') else '') +
+                                                   (' case-order="%s"' % k['case-order'] if k.get('case-order') else '')) for k in case['keys'])
     body = '<xsl:value-of select="@id"/>,<xsl:value-of select="position()"/>,<xsl:value-of select="last()"/>;'
     if case['how'] == 'for-each':
         main = '<xsl:for-each select="%s">%s%s</xsl:for-each>' % (case['select'], sorts, body)
@@ -112,7 +122,9 @@ def check(ctx, case):
     first = [tuple(v[:1]) for v in keyvals.values()]
     ties = len(first) != len(set(first))
     ctx.note(case, n >= 5 and ties, ['how:' + case['how'], 'keys:%d' % len(case['keys']), 'n>=5' if n >= 5 else 'n<5'] + (['ties'] if ties else []) +
-             ['dt:' + k['dt'] for k in case['keys']] + (['desc'] if any(k['order'] == 'descending' for k in case['keys']) else []),
+             ['dt:' + k['dt'] for k in case['keys']] + (['desc'] if any(k['order'] == 'descending' for k in case['keys']) else []) +
+             (['case-order'] if any(k.get('case-order') for k in case['keys']) else []) +
+             (['mixed-case-values'] if any(isinstance(v, str) and v != v.lower() for kv in keyvals.values() for v in kv) else []),
              sample_text={'select': case['select'], 'keys': case['keys'], 'n': n})
     r = ctx.drv.call('transform', xsl=stylesheet(case).encode('utf-8'), xml=xml.encode('utf-8'))
     if r.gets('rc') != '0':
@@ -130,9 +142,19 @@ def check(ctx, case):
     # point order): if such a key sees any other character (e.g. the upper-case 'NaN') the ordering is not judged
     import re as _re
     for i, k in enumerate(case['keys']):
-        if k.get('lang') and any(isinstance(kv[i], str) and not _re.fullmatch(r'[a-z0-9]*', kv[i]) for kv in keyvals.values()):
-            ctx.counters['unjudged:lang-key-outside-a-z0-9'] += 1
+        if k.get('lang') and any(isinstance(kv[i], str) and not _re.fullmatch(r'[a-zA-Z0-9]*', kv[i]) for kv in keyvals.values()):
+            ctx.counters['unjudged:lang-key-outside-a-zA-Z0-9'] += 1
             return None
+        if not k.get('lang') and k['dt'] == 'text' and any(isinstance(kv[i], str) and _re.search(r'[A-Z]', kv[i]) for kv in keyvals.values()):
+            # without lang= the collation is that of the environment: upper case is only judged under lang="en"
+            ctx.counters['unjudged:upper-case-without-lang'] += 1
+            return None
+
+    def collkey(sv, k):
+        """rank of a string over [a-zA-Z0-9] under the collation of 'en': letters without case first (digits before letters, a prefix before
+        the longer string), then case position by position"""
+        upper_first = k.get('case-order') == 'upper-first'
+        return (sv.lower(), tuple((0 if ch.isupper() else 1) if upper_first else (1 if ch.isupper() else 0) for ch in sv))
 
     def cmp_pair(a, b):
         """-1 if a must come before b, 1 if after, 0 if equal on all keys"""
@@ -140,6 +162,8 @@ def check(ctx, case):
             x, y = keyvals[a][i], keyvals[b][i]
             if x == y:
                 continue
+            if k.get('lang') and isinstance(x, str):
+                x, y = collkey(x, k), collkey(y, k)
             c = -1 if x < y else 1
             if k['order'] == 'descending':
                 c = -c
